@@ -406,6 +406,11 @@ func c09Case(c *core.Ctx, rng *rand.Rand, dir string, idx int) {
 			fail("watch-ended-before-last-close", fmt.Sprintf("%q left WatchList although %d descriptors are still open", carg, len(fds)))
 			return
 		}
+		if !isDir && len(fds) > 0 && rng.Intn(2) == 0 {
+			// the file lives on without a name: changes made through the descriptor are still its changes
+			s.TouchHeld(fds[rng.Intn(len(fds))], rng.Intn(2) == 0)
+			c.Count("changes_through_a_descriptor_of_an_unlinked_file", 1)
+		}
 		if parent == "late" {
 			s.AddStrict(&rep, "p")
 		}
